@@ -104,11 +104,14 @@ class HippoClientProtocol(asyncio.DatagramProtocol):
             region.circuit.send_acks((message.packet_id,))
             should_handle = region.circuit.track_reliable(message.packet_id)
 
+        # Already handled this one, the peer just never saw our ACK
+        if not should_handle:
+            return
+
         try:
-            if should_handle:
-                self.session.message_handler.handle(message)
+            self.session.message_handler.handle(message)
         except:
-            LOG.exception("Failed in region message handler")
+            LOG.exception("Failed in session message handler")
         region.message_handler.handle(message)
 
 
